@@ -137,3 +137,38 @@ fix_view_local (mpz_ptr w, mpz_srcptr u, mpz_srcptr v)
   mpz_swap (w, t);
   mpz_clear (t);
 }
+
+/* R-NORM positive: the difference of two n-limb numbers can lose any number of high limbs */
+void
+fix_norm_after_sub (mpz_ptr w, mpz_srcptr u, mpz_srcptr v)
+{
+  mp_size_t n = ABSIZ (u);
+  mp_ptr wp;
+  if (n == 0 || ABSIZ (v) != n || mpn_cmp (PTR (u), PTR (v), n) <= 0)
+    {
+      SIZ (w) = 0;
+      return;
+    }
+  wp = MPZ_REALLOC (w, n);
+  mpn_sub_n (wp, PTR (u), PTR (v), n);
+  n -= (wp[n - 1] == 0);
+  SIZ (w) = n;
+}
+
+/* R-NORM negative: a square loses at most one limb */
+void
+fix_norm_after_mul (mpz_ptr w, mpz_srcptr u)
+{
+  mp_size_t n = ABSIZ (u), wn;
+  mp_ptr wp;
+  if (n == 0 || w == u)
+    {
+      SIZ (w) = 0;
+      return;
+    }
+  wp = MPZ_REALLOC (w, 2 * n);
+  mpn_sqr (wp, PTR (u), n);
+  wn = 2 * n;
+  wn -= (wp[wn - 1] == 0);
+  SIZ (w) = wn;
+}
